@@ -31,7 +31,8 @@ var unit = ev.Unit[Case]{
 		}
 		ops := g.Seq(t, doc, ref.Opts{Neg: neg}, 0, 8, 2)
 		esc := rapid.Bool().Draw(t, "spell")
-		return Case{Doc: doc.Text(esc), Patch: ref.OpsText(ops, esc), Neg: neg}
+		dt, pt := gen.Texts(t, doc, ref.OpsTree(ops), esc, "sp")
+		return Case{Doc: dt, Patch: pt, Neg: neg}
 	},
 	Check: check,
 }
